@@ -411,7 +411,10 @@ pub fn split_plan(tape: &[u32]) -> SplitPlan {
     let mut t = crate::gen::query::Tape::new(tape);
     let n = 2 + t.pick(9);
     // short and long names of base units among them: a user unit may sort before `kg` / `m` / `s`
-    const BUNDLED: [&str; 15] = ["meter", "foot", "kg", "hour", "inch", "liter", "newton", "second", "kilogram", "kelvin", "m", "s", "candela", "mole", "ampere"];
+    // (`dam`, `dag`, `daN`: names through the prefix `da`, which has the prefix `d` as its own prefix)
+    const BUNDLED: [&str; 19] = [
+        "meter", "foot", "kg", "hour", "inch", "liter", "newton", "second", "kilogram", "kelvin", "m", "s", "candela", "mole", "ampere", "dam", "dag", "daN", "yoctometer",
+    ];
     // capitals sort before every lower-case name of the bundled file
     let stem = ["zqv", "aqv", "kqv", "AAq", "Zqv"][t.pick(5)];
     let mut units: Vec<(String, String, Vec<usize>)> = vec![];
@@ -499,6 +502,9 @@ pub fn check_split(c: &SplitCase, st: &mut Stats, known: &BTreeSet<String>) -> C
     let plan = split_plan(&c.tape);
     let n = plan.units.len();
     let queries: Vec<String> = plan.units.iter().flat_map(|(name, _, _)| vec![name.clone(), format!("7 {}", name)]).collect();
+    // names of the bundled database that have several prefix + unit readings, and a few that do not:
+    // adding user definitions must not change what they mean
+    let bundled_queries: Vec<String> = ["1 daA", "1 dat", "1 dau", "1 dasb", "1 yoctodecillion", "1 dam", "1 km", "1 hg", "3 foot", "1 mins", "1 pA", "1 PA"].iter().map(|s| s.to_string()).collect();
     let reference: String = plan.units.iter().map(|u| u.1.clone()).collect();
     let mut files = [String::new(), String::new()];
     for i in &plan.order {
@@ -515,6 +521,29 @@ pub fn check_split(c: &SplitCase, st: &mut Stats, known: &BTreeSet<String>) -> C
     }
     if cwd_to_cfg > 0 {
         st.class("cli_split_cwd_file_refers_to_config_file");
+    }
+    {
+        // what the bundled names mean with no user file at all (computed once per process)
+        static BASE: std::sync::OnceLock<Result<String, String>> = std::sync::OnceLock::new();
+        let base = BASE.get_or_init(|| run_rink_with_files("", "", &bundled_queries).map(|(_, out, _)| out));
+        let base = base.clone()?;
+        let (ok_x, out_x, err_x) = run_rink_with_files(&files[0], &files[1], &bundled_queries)?;
+        st.evals(1);
+        if ok_x && out_x != base {
+            let diff: Vec<String> = base.lines().zip(out_x.lines()).zip(bundled_queries.iter()).filter(|((a, b), _)| a != b).map(|((a, b), q)| format!("`{}`: `{}` -> `{}`", q, a, b)).collect();
+            return known_or(
+                known,
+                st,
+                format!(
+                    "[user-definitions-change-bundled-names] with these user files, names of the bundled database mean something else: {}\n./definitions.units:\n{}<config>/rink/definitions.units:\n{}",
+                    diff.join("; "),
+                    files[0],
+                    files[1]
+                ),
+                "cli-split",
+            );
+        }
+        let _ = err_x;
     }
     let (ok_a, out_a, err_a) = run_rink_with_files("", &reference, &queries)?;
     if !ok_a || out_a.contains("No such unit") || out_a.lines().count() != queries.len() {
